@@ -43,25 +43,26 @@ import (
 )
 
 type swarm struct {
-	profile   string // "C44" | "C45"
-	clients   int
-	edits     int
-	imports   bool
-	dagre     bool
-	fStall    bool
-	fClose    bool
-	fDrop     bool
-	fPartial  bool
-	fSlowHS   bool
-	fPlainGet bool
-	holdHS    bool
-	holdAdmit bool
-	stretch   int // 0 none, 1 compile window, 2 publish window, 3 both
-	fDup      bool
-	fDropW    bool
-	fAddFail  bool
-	lateJoin  bool
-	extraStep int
+	profile    string // "C44" | "C45"
+	clients    int
+	edits      int
+	imports    bool
+	dagre      bool
+	fStall     bool
+	fClose     bool
+	fDrop      bool
+	fPartial   bool
+	fSlowHS    bool
+	fPlainGet  bool
+	holdHS     bool
+	holdAdmit  bool
+	stretch    int // 0 none, 1 compile window, 2 publish window, 3 both
+	gateEditor bool
+	fDup       bool
+	fDropW     bool
+	fAddFail   bool
+	lateJoin   bool
+	extraStep  int
 }
 
 type frame struct {
@@ -105,17 +106,22 @@ type world struct {
 	quiet     atomic.Bool
 	settling  atomic.Bool
 
-	mainVer, impVer int
-	editsDone       atomic.Bool
-	closeBegun      atomic.Bool
-	hsWeight        int
-	admitWeight     map[string]int
-	baseWeight      map[string]int
-	publishing      atomic.Bool
-	heldAdmit       bool
-	signalled       atomic.Bool
-	signalAt        time.Duration
-	base            time.Time
+	mainVer, impVer  int
+	editsDone        atomic.Bool
+	closeBegun       atomic.Bool
+	hsWeight         int
+	admitWeight      map[string]int
+	baseWeight       map[string]int
+	baseAdvances     []time.Duration
+	lastInflightStep int
+	checkpointAt     int
+	midRun           bool
+	saveInProgress   atomic.Int32
+	publishing       atomic.Bool
+	heldAdmit        bool
+	signalled        atomic.Bool
+	signalAt         time.Duration
+	base             time.Time
 }
 
 func (w *world) fault(kind string) {
@@ -306,6 +312,7 @@ func (w *world) editor() {
 			path = filepath.Join(w.dir, "b.d2")
 		}
 		data := []byte(content(main, ver, w.cfg.imports))
+		w.saveInProgress.Store(1)
 		w.sim.Logf("editor: save %s version %d (%s)", filepath.Base(path), ver, []string{"truncate-write", "rename-over", "rename-away-create"}[style])
 		switch style {
 		case 0:
@@ -364,6 +371,7 @@ func (w *world) editor() {
 				os.Chtimes(path, w.mtime(ver, 3), w.mtime(ver, 3))
 			})
 		}
+		w.saveInProgress.Store(0)
 		w.sim.Logf("editor: version %d of %s is on disk", ver, filepath.Base(path))
 	}
 }
@@ -636,24 +644,25 @@ func runInBubble(hcfg harness.Config, idx int, tp *tape.Tape, dir string, res *h
 
 	w := &world{sim: sim, res: res, tp: tp, dir: dir, gidName: map[uint64]string{}, base: time.Unix(1_700_000_000, 0)}
 	w.cfg = swarm{
-		profile:   hcfg.Property,
-		clients:   tp.Weighted([]int{1, 3, 3, 2, 1, 1}, "cfg.clients"),
-		edits:     tp.Weighted([]int{1, 2, 3, 3, 2, 2, 1, 1, 1}, "cfg.edits"),
-		imports:   tp.Chance(1, 3, "cfg.imports"),
-		dagre:     tp.Chance(1, 12, "cfg.dagre"),
-		fStall:    tp.Chance(1, 3, "cfg.stall"),
-		fClose:    tp.Chance(1, 2, "cfg.close"),
-		fDrop:     tp.Chance(1, 2, "cfg.drop"),
-		fPartial:  tp.Chance(1, 3, "cfg.partial"),
-		fSlowHS:   tp.Chance(1, 2, "cfg.slowhandshake"),
-		fPlainGet: tp.Chance(1, 2, "cfg.plainget"),
-		holdHS:    tp.Chance(1, 2, "cfg.holdhandshakes"),
-		holdAdmit: tp.Chance(1, 3, "cfg.holdadmit"),
-		stretch:   tp.Weighted([]int{2, 3, 3, 2}, "cfg.stretch"),
-		fDup:      tp.Chance(1, 2, "cfg.dup"),
-		fDropW:    tp.Chance(1, 3, "cfg.dropwrite"),
-		fAddFail:  tp.Chance(1, 3, "cfg.addfail"),
-		lateJoin:  tp.Chance(1, 2, "cfg.latejoin"),
+		profile:    hcfg.Property,
+		clients:    1 + tp.Weighted([]int{4, 3, 2, 1, 1}, "cfg.clients"),
+		edits:      tp.Weighted([]int{1, 2, 3, 3, 3, 2, 2, 1, 1, 1, 1, 1, 1}, "cfg.edits"),
+		imports:    tp.Chance(1, 3, "cfg.imports"),
+		dagre:      tp.Chance(1, 12, "cfg.dagre"),
+		fStall:     tp.Chance(1, 3, "cfg.stall"),
+		fClose:     tp.Chance(1, 2, "cfg.close"),
+		fDrop:      tp.Chance(1, 2, "cfg.drop"),
+		fPartial:   tp.Chance(1, 3, "cfg.partial"),
+		fSlowHS:    tp.Chance(1, 2, "cfg.slowhandshake"),
+		fPlainGet:  tp.Chance(1, 2, "cfg.plainget"),
+		holdHS:     tp.Chance(1, 2, "cfg.holdhandshakes"),
+		holdAdmit:  tp.Chance(1, 3, "cfg.holdadmit"),
+		stretch:    tp.Weighted([]int{2, 3, 3, 2}, "cfg.stretch"),
+		gateEditor: tp.Chance(1, 2, "cfg.gateeditor"),
+		fDup:       tp.Chance(1, 2, "cfg.dup"),
+		fDropW:     tp.Chance(1, 3, "cfg.dropwrite"),
+		fAddFail:   tp.Chance(1, 3, "cfg.addfail"),
+		lateJoin:   tp.Chance(1, 2, "cfg.latejoin"),
 	}
 	if w.cfg.profile != "C45" {
 		w.cfg.profile = "C44"
@@ -665,6 +674,7 @@ func runInBubble(hcfg harness.Config, idx int, tp *tape.Tape, dir string, res *h
 		sim.ClassWeight[cl] = 2 + tp.Draw(10, "cfg.w."+cl)
 	}
 	sim.ClassWeight["operator"] = 0
+	w.baseAdvances = sim.Advances
 	w.baseWeight = map[string]int{}
 	for k, v := range sim.ClassWeight {
 		w.baseWeight[k] = v
@@ -791,6 +801,24 @@ func runInBubble(hcfg harness.Config, idx int, tp *tape.Tape, dir string, res *h
 			}
 		}
 		allowTime := true
+		if w.cfg.profile == "C44" && w.cfg.gateEditor && w.cfg.stretch != 0 && !w.signalled.Load() && !w.editsDone.Load() &&
+			!w.inCompile.Load() && !w.publishing.Load() && sim.Steps-w.lastInflightStep >= 30 && w.checkpointAt != w.mainVer*1000+w.impVer && w.saveInProgress.Load() == 0 {
+			// Mid-run checkpoint: the editor pauses, faults pause, 60 simulated seconds
+			// pass, and the same conditions as at the end of the run must hold. This makes
+			// every lost update visible, not only one that happens to be the last.
+			w.checkpointAt = w.mainVer*1000 + w.impVer
+			w.midRun = true
+			sim.ClassWeight["editor"] = 0
+			w.settle()
+			w.midRun = false
+			w.checkC44()
+			w.settling.Store(false)
+			w.kernel.NoFaults = false
+			w.res.Probe("midrun_checkpoints")
+			if w.res.Oracle != "" {
+				break
+			}
+		}
 		w.biasInFlight()
 		w.biasHandshakes()
 		if w.signalled.Load() {
@@ -934,12 +962,27 @@ func (w *world) biasInFlight() {
 	compiling := w.inCompile.Load() && w.cfg.stretch&1 != 0
 	publishing := w.publishing.Load() && w.cfg.stretch&2 != 0
 	inflight := compiling || publishing
+	boost := 4
+	if w.cfg.gateEditor {
+		boost = 12
+	}
 	for _, c := range []string{"editor", "kernel", "req", "fsn", "browser"} {
 		if inflight {
-			w.sim.ClassWeight[c] = w.baseWeight[c] * 4
+			w.sim.ClassWeight[c] = w.baseWeight[c] * boost
 		} else {
 			w.sim.ClassWeight[c] = w.baseWeight[c]
 		}
+	}
+	if w.cfg.gateEditor && !inflight && !w.editsDone.Load() {
+		// Gated editor (a third of the stretched runs): saves are held back until an
+		// operation is in flight, so that most of them land inside one. The gate opens
+		// by itself when nothing has been in flight for 30 decisions.
+		if w.sim.Steps-w.lastInflightStep < 30 {
+			w.sim.ClassWeight["editor"] = 0
+		}
+	}
+	if inflight {
+		w.lastInflightStep = w.sim.Steps
 	}
 	for _, c := range []string{"fs", "layout", "compile.bcast"} {
 		if compiling {
@@ -957,10 +1000,14 @@ func (w *world) biasInFlight() {
 	}
 	if inflight {
 		w.sim.TimeWeight = 6
+		w.sim.Advances = shortAdvances // the burst timer is 16 ms; do not leap over poll ticks
 	} else {
 		w.sim.TimeWeight = 1
+		w.sim.Advances = w.baseAdvances
 	}
 }
+
+var shortAdvances = []time.Duration{time.Millisecond, 16 * time.Millisecond, 16 * time.Millisecond, 100 * time.Millisecond}
 
 // biasHandshakes steers slow browser handshakes towards the shutdown window (C45 profile,
 // half of the runs): between the shutdown request and the moment close() begins they are
@@ -1058,8 +1105,8 @@ func (w *world) settle() {
 	sim := w.sim
 	w.settling.Store(true)
 	w.kernel.NoFaults = true
-	// let a half-finished save complete
-	for i := 0; i < 400 && !w.editsDone.Load(); i++ {
+	// let a half-finished save complete (and, at the end of the run, the remaining saves)
+	for i := 0; i < 400 && !w.editsDone.Load() && (w.saveInProgress.Load() != 0 || !w.midRun); i++ {
 		if !sim.Step(false, nil) {
 			sim.Advance(100 * time.Millisecond)
 		}
